@@ -120,6 +120,11 @@ def surface_position_with_ref(
         (float, float): (latitude, longitude) of the aircraft
     """
 
+    tc = common.typecode(msg)
+
+    if tc is None or tc < 5 or tc > 8:
+        raise RuntimeError("%s: Not a surface message, expecting 5<TC<8" % msg)
+
     mb = common.hex2bin(msg)[32:]
 
     cprlat = common.bin2int(mb[22:39]) / 131072
